@@ -188,6 +188,52 @@ theorem setup_balances (p : Problem) (A : Mat) (h : setup p = .ok A) (xr xp : Ve
           ring
     · cases h
 
+/-- **keys_equal_species** (clause "the set of keys equals the species given"): the two returned dicts have
+exactly the reactants and the products as keys, in the order given (names distinct within a side). -/
+theorem keys_equal_species (mode : Mode) (solver : Mat → Candidate) (p : Problem) (r pr : List (String × Entry))
+    (h : balanceCore mode solver p = .ok (r, pr)) (hr : p.reactants.Nodup) (hp : p.products.Nodup) :
+    r.map (·.1) = p.reactants ∧ pr.map (·.1) = p.products := by
+  unfold balanceCore at h
+  split at h
+  · cases h
+  · simp only at h
+    split at h
+    · cases h
+    · split at h
+      · rename_i r' pr' h1 h2
+        injection h with h
+        injection h with ha hb
+        subst ha; subst hb
+        exact ⟨mkDict_keys _ _ _ _ _ h1 hr, mkDict_keys _ _ _ _ _ h2 hp⟩
+      · cases h
+
+/-- **duplicates_selection** (`allow_duplicates=True`): whatever the duplicate search returns is the answer of
+the duplicate-free function for a SELECTION of the species given — a sub-list of the reactants and a sub-list
+of the products with no species on both sides.  All clauses proved for the duplicate-free function carry over
+to that selection. -/
+theorem duplicates_selection (mode : Mode) (allowDup : Bool) (solver : Mat → Candidate) (p : Problem)
+    (res : Result) (h : balance mode allowDup solver p = .ok res) :
+    ∃ r' p', balanceCore mode solver { p with reactants := r', products := p' } = .ok res ∧
+      (∀ s ∈ r', s ∈ p.reactants) ∧ (∀ s ∈ p', s ∈ p.products) ∧ (∀ s ∈ r', s ∉ p') :=
+  dupSearch_selection mode _ _ _ _ _ _ h
+
+/-- **resolve_uses_call_table** (the compositions balanced are those of THIS call): when `substances` is `None`
+or a string of keys, the composition every listed key resolves to is the one this call's `substance_factory`
+(`table`) gives — nothing else (no earlier call, no other state) enters the matrix. -/
+theorem resolve_uses_call_table (table : List (String × Comp)) (reac prod ks : List String)
+    (subs : List (String × Comp)) :
+    (resolve table .factory reac prod = some subs → ∀ k ∈ reac ++ prod, subs.lookup k = table.lookup k) ∧
+    (resolve table (.keys ks) reac prod = some subs → ∀ k ∈ ks, subs.lookup k = table.lookup k) := by
+  constructor
+  · intro h k hk
+    simp only [resolve, Option.map_eq_some_iff] at h
+    obtain ⟨cs, hcs, rfl⟩ := h
+    exact zip_lookup table _ cs hcs k hk
+  · intro h k hk
+    simp only [resolve, Option.map_eq_some_iff] at h
+    obtain ⟨cs, hcs, rfl⟩ := h
+    exact zip_lookup table _ cs hcs k hk
+
 /-- **minimalBySearch_sound** (clause "the 'smallest integers' mode returns a positive solution of minimal
 coefficient sum", as a verified certificate checker applied to each concrete ILP answer): if the bounded
 enumeration of positive vectors with smaller coefficient sum finds no balancing one, then `x` has minimal
